@@ -434,7 +434,9 @@ class Report:
                       "TLC 1.8 evaluates the TLA+ operators of /verif/spec correctly",
                       "harness/project.py maps Python values to the abstract state faithfully (fixed, knowledge-free mapping)"],
                   wall_s=round(time.time() - self.t0, 2), violations=len(self.violations))
-        (EVID / f"{self.prop}.json").write_text(json.dumps(ev, indent=1, default=str))
+        out_dir = EVID if not self.prop.startswith("X") else VERIF / "extras"    # X..: not a listed property
+        out_dir.mkdir(exist_ok=True)
+        (out_dir / f"{self.prop}.json").write_text(json.dumps(ev, indent=1, default=str))
         print(f"{self.prop} {self.tier}: events={self.events} ok={self.events - len(self.violations) - sum(len(v) for v in self.known.values())} "
               f"known={sum(len(v) for v in self.known.values())} violations={len(self.violations)} "
               f"states={self.states} wall={time.time() - self.t0:.1f}s")
